@@ -47,7 +47,9 @@ def gen_event(rng, exceptions=True, i=0):
     pool = sorted({t for l, _ in lists for t in l[:NPOP]}, key=_key)
     base = pool or [ds]
     rdates = []
-    for _ in range(rng.choice([0, 0, 1, 3, 6]) if nr else rng.randint(1, 6)):
+    # (an event of DTSTART alone has that one occurrence, which exceptions may name)
+    lone = exceptions and nr == 0 and rng.random() < 0.3
+    for _ in range(0 if lone else rng.choice([0, 0, 1, 3, 6]) if nr else rng.randint(1, 6)):
         rdates.append(rng.choice(base) if rng.random() < 0.3 else _near(rng, rng.choice(base), allday))
     xrules, xdates = [], []
     if exceptions:
@@ -84,7 +86,7 @@ def gen_event(rng, exceptions=True, i=0):
             cut = k if cut is None or k < cut else cut
         elif why == "budget":
             cut = _key(ds)
-    inc = {t for l, _ in lists for t in l} | set(rdates)
+    inc = {t for l, _ in lists for t in l} | set(rdates) | ({ds} if lone else set())
     exc = {t for l, _ in xlists for t in l} | set(xdates)
     want = sorted((t for t in inc if t not in exc and (cut is None or _key(t) <= cut)), key=_key)
     complete = cut is None
